@@ -3,8 +3,7 @@ Faithful model of the Earley recogniser of pyformlang.fcfg.FCFG (`_get_final_sta
 `__predictor`, `_scanner`, `_completer`, `StateProcessed`) over the pointer-level model of
 feature structures (`Pfl/Model/FeatureDag.lean`): one global store of objects, `copy` with its
 memo, `subsumes`, destructive `unify` on copies.  Chart columns are stacks (`pop()` takes the
-last element), `processed[i]` is an insertion-ordered dict keyed by `(production, positions)`
-where — as in the library — productions compare by head and body only.
+last element), `processed[i]` is an insertion-ordered dict keyed by `(production, positions)`.
 Faithful for grammars without epsilon productions (with them the library mutates a dict while
 iterating over it; here every `generator(i)` is a snapshot).  Core Lean only.
 -/
@@ -29,7 +28,9 @@ structure EState where
   fs : Nat
 deriving Repr, DecidableEq
 
-abbrev Key := String × List Sym × Nat × Nat × Nat
+/-- `(production, positions)`: since the repair of `FeatureProduction.__eq__` two rules are the same
+key only when they are the same rule (same feature objects), i.e. the same index here -/
+abbrev Key := Nat × Nat × Nat × Nat
 
 /-- `copy(already_copied)`: deep copy preserving sharing; returns the store, the memo and the copy -/
 def copyF : Nat → Store → List (Nat × Nat) → Nat → Store × List (Nat × Nat) × Nat
@@ -84,9 +85,7 @@ structure Grammar where
 def prodOf (G : Grammar) (k : Nat) : FProd :=
   G.prods.getD k { head := G.gammaName, body := [.var G.start], feats := G.gammaFeats }
 
-def keyOf (G : Grammar) (s : EState) : Key :=
-  let p := prodOf G s.prod
-  (p.head, p.body, s.b, s.e, s.dot)
+def keyOf (_G : Grammar) (s : EState) : Key := (s.prod, s.b, s.e, s.dot)
 
 def incomplete (G : Grammar) (s : EState) : Bool := s.dot < (prodOf G s.prod).body.length
 
